@@ -523,6 +523,61 @@ fn fastload_short_block(ctx: &Ctx) {
     }
 }
 
+/// Several stores in ONE frame, on both sides of the beam, then nothing: from the next frame on
+/// every frame must be the decode of the (now unchanged) memory. (A renderer that skips redrawing
+/// unchanged screens must not lose a store because a later store re-armed its bookkeeping.)
+fn stores_around_the_beam_then_idle(ctx: &Ctx) {
+    let base = latin(11);
+    // addresses: first bitmap byte (line 0), last bitmap byte (line 191), first and last attribute
+    let spots: [u16; 4] = [0x4000, 0x57FF, 0x5800, 0x5AFF];
+    let mut jobs: Vec<(bool, usize, usize)> = Vec::new();
+    for is128 in [false, true] {
+        for a in 0..4 {
+            for b in 0..4 {
+                if a != b {
+                    jobs.push((is128, a, b));
+                }
+            }
+        }
+    }
+    par_for(jobs.len(), 1, |j| {
+        let (is128, a, b) = jobs[j];
+        let cfg = if is128 { Cfg::K128Normal } else { Cfg::K48 };
+        let mut e = match write_content(cfg, Writer::Poke, &base) {
+            Ok(e) => e,
+            Err(_) => return,
+        };
+        frames(&mut e, 3);
+        // DI; LD BC,1350; loop (26 T each: about 35000 T, the beam is in the middle of the picture);
+        // LD A,value; LD (spot a),A; CPL; LD (spot b),A; JR $
+        let (sa, sb) = (spots[a], spots[b]);
+        let va = !base[(sa - 0x4000) as usize] | 0x41;
+        let prog: Vec<u8> = vec![0xF3, 0x01, 0x46, 0x05, 0x0B, 0x78, 0xB1, 0x20, 0xFB, 0x3E, va, 0x32, sa as u8, (sa >> 8) as u8, 0x2F, 0x32, sb as u8, (sb >> 8) as u8, 0x18, 0xFE];
+        rig::poke(&mut e, 0x8800, &prog);
+        e.verif_cpu().regs.set_pc(0x8800);
+        frames(&mut e, 1);
+        let case = json!({"kind":"stores-around-beam","m128":is128,"first":sa,"second":sb});
+        ctx.add_eval(1);
+        for k in 1..=6 {
+            frames(&mut e, 1);
+            let mem = displayed_memory(&e, is128);
+            if mem[(sa - 0x4000) as usize] != va || mem[(sb - 0x4000) as usize] != !va {
+                ctx.violation("C08:stores-around-beam:harness", "the two stores did not happen", case);
+                return;
+            }
+            if let Err((x, y, g, w)) = compare_frame(&e, &mem) {
+                ctx.violation(
+                    &format!("C08:stores-around-the-beam:{}:frame+{}", if is128 { "128k" } else { "48k" }, k),
+                    &format!("{} machine: stores to {:04x} and then {:04x} in one frame while the beam was in the middle of the picture, nothing written afterwards: {} frame(s) later pixel ({},{}) shows {:02x}, the standard decode of the unchanged display memory gives {:02x}", if is128 { "128K" } else { "48K" }, sa, sb, k, x, y, g, w),
+                    case,
+                );
+                return;
+            }
+        }
+        ctx.outcome(0x57B0 ^ (a as u64) << 4 ^ (b as u64) << 1 ^ is128 as u64);
+    });
+}
+
 /// Beam clause without ever placing the clock: the CPU idles (JR $) from the frame start until
 /// the chosen moment, so the renderer's own scheduling of its work is part of what is tested.
 fn beam_clause_free_running(ctx: &Ctx, is128: bool, lines: &[usize]) {
@@ -766,6 +821,7 @@ pub fn run(tier: Tier, seed: u64, replay: Option<String>) -> i32 {
     snapshot_then_flip(&ctx);
     save_with_stack_in_screen(&ctx);
     fastload_short_block(&ctx);
+    stores_around_the_beam_then_idle(&ctx);
     let lines: Vec<usize> = if quick { vec![0, 1, 7, 8, 63, 64, 65, 100, 127, 128, 190, 191] } else { (0..192).collect() };
     beam_clause(&ctx, false, &lines);
     beam_clause(&ctx, true, &lines);
@@ -776,7 +832,7 @@ pub fn run(tier: Tier, seed: u64, replay: Option<String>) -> i32 {
     ctx.note("contents", json!(contents.len()));
     ctx.note("not_judged", json!("phase of the first FLASH swap; stores completing within +-16 T of the ULA fetch of the byte"));
     ctx.finish(
-        "contents: Latin frames (bitmap[a]=(17a+j) mod 256, attr[a]=(29a+3j) mod 256: every screen address meets every byte value over j) and 26 address-line frames; writers: LDIR, explicit CPU store loop, execute_poke, tape fast load through the ROM trap, SNA, SZX stored, SZX zlib, SCR (files through assets returning short reads of rotating sizes {whole,1,2,3,7,127,128,129}); configurations: 48K, 128K normal screen, 128K shadow screen written through C000, bank 5 written through C000; after two unchanged frames all 49152 pixels (colour and brightness) are compared with the standard decode of the displayed bank; FLASH run lengths over 48 frames; paging bit 3 switched between frames, also after the latch is locked (the displayed bank is computed from the reference latch, not from the implementation); snapshot with both screens loaded then flipped by the program; SNA/SZX save with SP inside the display memory; tape blocks shorter than the request fast-loaded over a picture already shown; beam clause on picture lines x columns {0,15,31} x store times -90..+70 T around the ULA fetch. distinct_nontrivial = (configuration, writer, content) cases",
+        "contents: Latin frames (bitmap[a]=(17a+j) mod 256, attr[a]=(29a+3j) mod 256: every screen address meets every byte value over j) and 26 address-line frames; writers: LDIR, explicit CPU store loop, execute_poke, tape fast load through the ROM trap, SNA, SZX stored, SZX zlib, SCR (files through assets returning short reads of rotating sizes {whole,1,2,3,7,127,128,129}); configurations: 48K, 128K normal screen, 128K shadow screen written through C000, bank 5 written through C000; after two unchanged frames all 49152 pixels (colour and brightness) are compared with the standard decode of the displayed bank; FLASH run lengths over 48 frames; paging bit 3 switched between frames, also after the latch is locked (the displayed bank is computed from the reference latch, not from the implementation); snapshot with both screens loaded then flipped by the program; SNA/SZX save with SP inside the display memory; tape blocks shorter than the request fast-loaded over a picture already shown; two stores in one frame on both sides of the beam followed by six idle frames; beam clause on picture lines x columns {0,15,31} x store times -90..+70 T around the ULA fetch. distinct_nontrivial = (configuration, writer, content) cases",
         false,
         &["quick tier rotates contents over the non-LDIR writers (each writer sees a quarter of the contents)", "beam clause places the frame clock through the hook"],
     )
